@@ -155,7 +155,14 @@ pub fn c20(run: &mut Run) -> Stats {
             let (re, p, f) = &compiled[pi];
             let hay = &hays[hi];
             let text = hay.text.as_str();
-            let expected: Vec<(usize, usize)> = re.find_iter(text).map(|m| (m.start(), m.end())).collect();
+            let expected: Vec<(usize, usize)> = match subject::guarded(5_000_000, || re.find_iter(text).map(|m| (m.start(), m.end())).collect::<Vec<(usize, usize)>>()) {
+                Outcome::Ok(v) => v,
+                other => {
+                    let case = J::obj().set("kind", J::s("searcher")).set("pattern", J::s(p)).set("flags", J::s(f)).set("haystack", J::s(text)).set("what", J::s("find_iter itself panics or does not return on this input")).set("got", J::s(&format!("{:?}", other)));
+                    st.violation(&known, "C20", "find_iter panics (the searcher is built on it)", p.len() + text.len(), case);
+                    return st;
+                }
+            };
             let case = |what: &str, hist: &str, steps: J| J::obj().set("kind", J::s("searcher")).set("pattern", J::s(p)).set("flags", J::s(f)).set("haystack", J::s(text)).set("history", J::s(hist)).set("what", J::s(what)).set("steps", steps).set("find_iter", J::Arr(expected.iter().map(|(a, b)| J::s(&format!("{}..{}", a, b))).collect()));
             let mut pure_fwd: Option<Vec<Step>> = None;
             let mut pure_bwd: Option<Vec<Step>> = None;
